@@ -213,6 +213,8 @@ def minimise(job, target, sim_dir, repo, budget=60, wall_budget=150.0):
                 if len(cyc) > 1:
                     nc = cyc[:i] + cyc[i + 1:]
                     out.append((f"drop call {cyc[i][1]}{cyc[i][0]}", dict(c, cycle=nc, sizes=sorted(set(n for _, n in nc)))))
+            if c.get("ops"):
+                out.append(("ops=0", dict(c, ops=0)))
             if c["yield"]:
                 out.append(("yield=0", dict(c, **{"yield": 0})))
             if c["D"] > 2:
@@ -226,6 +228,8 @@ def minimise(job, target, sim_dir, repo, budget=60, wall_budget=150.0):
             out.append(("types", dict(c, types="lut" if v["typ"] == "L" else "static")))
         if c.get("battery"):
             out.append(("battery", dict(c, battery=0)))
+        if c.get("ops"):
+            out.append(("ops=0", dict(c, ops=0)))
         nthreads = c["K"] + (1 if c["main"] else 0)
         inv = max(1, len(v.get("threads") or [1]))
         for k in sorted({inv, 2, 1}, reverse=False):
@@ -437,6 +441,8 @@ def write_evidence_file(tier, seed, jobs, recs, audit, wall, reported, stopped, 
                 "preemption_inside_random_call": pre,
                 "cooperative_yield_points": sum((r["job"]["K"] + r["job"]["main"]) * r["job"]["D"] * len(r["job"]["sizes"]) for r in ok if r["job"]["yield"]),
                 "runs_with_main_thread_drawing": sum(1 for r in ok if r["job"]["main"]),
+                "runs_with_other_api_calls_between_draws": sum(1 for r in ok if r["job"].get("ops")),
+                "runs_with_mixed_size_call_cycles": sum(1 for r in ok if r["job"].get("cycle")),
                 "runs_with_cas_failure_rate_override": sum(1 for r in ok if any("compare-exchange" in f for f in r["job"].get("extra_flags", []))),
                 "runs_with_address_reuse_override": sum(1 for r in ok if any("address-reuse" in f for f in r["job"].get("extra_flags", []))),
                 "reseed_threshold_crossings(64KiB per thread)": sum(1 for r in ok if runner.words_of(r["job"]) * 8 // max(1, r["job"]["K"] + r["job"]["main"]) >= 65536),
